@@ -1,9 +1,14 @@
-(** C01 correspondence case: input merge(s) and what the implementation returned. *)
+(** C01 correspondence case: input merge(s) and what the implementation returned.
+    Definitions only; the meaning of [okb] is proved in Proofs/C01Checker.v
+    (theorem [C01_okb_spec] in Props/C01.v). *)
 From Verif Require Import Base.Prelude Model.Merge.
 
 Record case := mk_case {
   c_m : list N;                 (* Merge<u8> terms *)
   c_simplified : list N;        (* impl: m.simplify() *)
+  c_resimplified : list N;      (* impl: m.simplify().simplify() *)
+  c_mapping : list N;           (* impl: get_simplified_mapping(), observed by writing pairwise
+                                   distinct fresh terms back with update_from_simplified *)
   c_nested : list (list N);     (* Merge<Merge<u8>> *)
   c_flat : list N;              (* impl: nested.flatten() *)
   c_edit : list N;              (* an edited version of the simplified merge *)
@@ -25,22 +30,68 @@ Fixpoint changes_s (sgn : bool) (l1 l2 : list N) : list N :=
   end.
 Definition changes := changes_s true.
 Definition multiset_eqb (l1 l2 : list N) : bool :=
-  Nat.eqb (length l1) (length l2)
-  && forallb (fun x => Z.eqb (count N.eqb x l1) (count N.eqb x l2)) l1.
+  forallb (fun x => Z.eqb (count N.eqb x l1) (count N.eqb x l2)) (l1 ++ l2).
 
-(** Property checker evaluated on the implementation's outputs (proved equivalent to the
-    C01 statements in Proofs/C01.v). *)
+Section Checker.
+  Context {T : Type} (eqb : T -> T -> bool).
+
+  Fixpoint nodupb (l : list nat) : bool :=
+    match l with
+    | [] => true
+    | x :: t => negb (existsb (Nat.eqb x) t) && nodupb t
+    end.
+
+  (** Entry [k] of [mp] (simplified position [j + k]) is an in-range original index of the
+      same parity holding the same term. *)
+  Fixpoint map_okb_from (m s : list T) (j : nat) (mp : list nat) : bool :=
+    match mp with
+    | [] => true
+    | i :: t =>
+        Nat.ltb i (length m) && Bool.eqb (Nat.even i) (Nat.even j)
+        && option_eqb eqb (nth_error s j) (nth_error m i)
+        && map_okb_from m s (S j) t
+    end.
+
+  Definition mapping_okb (m s : list T) (mp : list nat) : bool :=
+    Nat.eqb (length mp) (length s) && nodupb mp && map_okb_from m s 0 mp.
+
+  Fixpoint index_of (i : nat) (l : list nat) : option nat :=
+    match l with
+    | [] => None
+    | x :: t => if Nat.eqb x i then Some 0%nat else option_map S (index_of i t)
+    end.
+
+  (** [u] is [m] with [e] written to the positions listed in [mp], nothing else touched. *)
+  Definition landsb (m : list T) (mp : list nat) (e u : list T) : bool :=
+    Nat.eqb (length u) (length m) && Nat.eqb (length e) (length mp)
+    && forallb (fun i => option_eqb eqb (nth_error u i)
+                           (match index_of i mp with
+                            | Some j => nth_error e j
+                            | None => nth_error m i
+                            end))
+         (seq 0 (length m)).
+
+  Definition flat_den_okb (flat : list T) (nested : list (list T)) : bool :=
+    forallb (fun v => Z.eqb (den eqb flat v) (den_nested eqb nested v)) (flat ++ concat nested).
+End Checker.
+
+(** Property checker evaluated on the implementation's outputs. *)
 Definition okb (c : case) : bool :=
+  let mp := map N.to_nat (c_mapping c) in
   den_eqb N.eqb (c_m c) (c_simplified c)
+  && Nat.odd (length (c_simplified c))
   && disjointb N.eqb (c_simplified c)
-  && forallb (fun v => Z.eqb (den N.eqb (c_flat c) v) (den_nested N.eqb (c_nested c) v))
-       (c_flat c ++ concat (c_nested c))
-  && Nat.eqb (length (c_updated c)) (length (c_m c))
+  && leqb (c_resimplified c) (c_simplified c)
+  && mapping_okb N.eqb (c_m c) (c_simplified c) mp
+  && flat_den_okb N.eqb (c_flat c) (c_nested c)
+  && landsb N.eqb (c_m c) mp (c_edit c) (c_updated c)
   && multiset_eqb (changes (c_m c) (c_updated c)) (changes (c_simplified c) (c_edit c)).
 
 Definition check_case (c : case) : N :=
   let corr :=
     leqb (simplify N.eqb (c_m c)) (c_simplified c)
+    && leqb (simplify N.eqb (simplify N.eqb (c_m c))) (c_resimplified c)
+    && leqb (map N.of_nat (simplified_mapping N.eqb (c_m c))) (c_mapping c)
     && leqb (flatten (c_nested c)) (c_flat c)
     && leqb (update_from_simplified N.eqb (c_m c) (c_edit c)) (c_updated c) in
   verdict corr (okb c) false 1.
